@@ -390,6 +390,57 @@ func c03Runnable(t *Task) bool {
 	return false
 }
 
+// c03RefWaiting: reference for "all pending tasks are blocked by other tasks in Wait" (must be called with the state
+// lock held). A pending (Do/Undo) task is blocked-behind-waits iff none of the tasks it depends on (wait tasks for
+// Do, halt tasks for Undo) is active, at least one of them is waiting or itself pending-and-blocked-behind-waits,
+// and every pending one of them is blocked-behind-waits. Any active task (Doing/Undoing/Abort) means not waiting.
+func c03RefWaiting(w *world) bool {
+	memo := map[string]bool{}
+	var blockedBehindWait func(t *Task) bool
+	blockedBehindWait = func(t *Task) bool {
+		if v, ok := memo[t.ID()]; ok {
+			return v
+		}
+		var deps []*Task
+		switch t.Status() {
+		case DoStatus:
+			deps = t.WaitTasks()
+		case UndoStatus:
+			deps = t.HaltTasks()
+		}
+		blocked, ok := false, true
+		for _, d := range deps {
+			switch d.Status() {
+			case WaitStatus:
+				blocked = true
+			case DoneStatus, UndoneStatus, ErrorStatus, HoldStatus:
+				// finished: does not block
+			case DoStatus, UndoStatus:
+				if blockedBehindWait(d) {
+					blocked = true
+				} else {
+					ok = false
+				}
+			default:
+				ok = false
+			}
+		}
+		memo[t.ID()] = ok && blocked
+		return ok && blocked
+	}
+	for _, t := range w.tasks {
+		switch t.Status() {
+		case DoingStatus, UndoingStatus, AbortStatus:
+			return false
+		case DoStatus, UndoStatus:
+			if !blockedBehindWait(t) {
+				return false
+			}
+		}
+	}
+	return true
+}
+
 func (o *c03Obs) afterStep(w *world) { o.checkState(w) }
 
 func (o *c03Obs) checkState(w *world) {
@@ -425,36 +476,27 @@ func (o *c03Obs) checkState(w *world) {
 	if allReady && len(errTasks) > 0 && cs != ErrorStatus {
 		w.problem("aggregate: all tasks ready, t%v in Error, but change is %s", errTasks, cs)
 	}
-	if cs == WaitStatus {
-		if !has[WaitStatus] {
-			w.problem("aggregate: change reports Wait without a waiting task")
-		}
-		if anyRunnable {
-			w.problem("aggregate: change reports Wait although a task is runnable")
-		}
+	// documented aggregate: "with all pending tasks blocked by other tasks in WaitStatus, return WaitStatus";
+	// otherwise the first status of the documented priority order that any task has
+	refWaiting := has[WaitStatus] && c03RefWaiting(w)
+	var want Status
+	if refWaiting {
+		want = WaitStatus
 	} else {
-		// documented priority order
-		var want Status
 		for _, s := range c03Order {
 			if has[s] {
 				want = s
 				break
 			}
 		}
-		if want == WaitStatus {
-			// Wait has priority only if everything pending is blocked behind waiting tasks; otherwise the next one applies
-			if anyRunnable || has[DoStatus] || has[UndoStatus] {
-				want = cs // covered by the Wait rule above / below: must then be Do/Undo-ish; checked separately
-				if cs == ErrorStatus || cs.Ready() {
-					// fine: only ready tasks besides the waiting ones is impossible here
-				}
-			}
-		}
-		if has[WaitStatus] && !anyRunnable && !has[DoingStatus] && !has[UndoingStatus] && !has[AbortStatus] && !has[DoStatus] && !has[UndoStatus] {
-			w.problem("aggregate: only waiting and ready tasks but change is %s, expected Wait", cs)
-		}
-		if !has[WaitStatus] && cs != want {
-			w.problem("aggregate: change is %s but the documented priority gives %s", cs, want)
+	}
+	if cs != want {
+		if cs == WaitStatus && anyRunnable {
+			w.problem("aggregate: change reports Wait although a task is runnable")
+		} else if want == WaitStatus {
+			w.problem("aggregate: every pending task is blocked behind a waiting task but the change reports %s, expected Wait", cs)
+		} else {
+			w.problem("aggregate: change is %s but the documented aggregate gives %s", cs, want)
 		}
 	}
 	// error report
@@ -574,6 +616,25 @@ func TestVerifC03(t *testing.T) {
 				cfgs = append([]*erConfig{&c2}, cfgs...) // explored first
 			}
 		}
+	}
+	// waits in the undo direction (an undo that needs a reboot): chains of pending Undo tasks behind a waiting one
+	// need 4 tasks (three being undone + the failing one); a family of its own, explored first
+	{
+		sp := scriptSpace{failDo: 1, failUndo: 0, requireFail: true, specials: []script{sUndoWait}, maxSpecial: r.Pick(1, 2)}
+		fam := enumConfigs([]int{3, 4}, sp, false, []int{0})
+		var keep []*erConfig
+		for _, c := range fam {
+			hasUW := false
+			for _, s := range c.Scripts {
+				if s == sUndoWait {
+					hasUW = true
+				}
+			}
+			if hasUW {
+				keep = append(keep, c)
+			}
+		}
+		cfgs = append(keep, cfgs...)
 	}
 	r.Info("bounds", map[string]interface{}{"configurations": len(cfgs), "max_user_aborts": r.Pick(1, 2)})
 	spec := &erRunSpec{prop: "C03", configs: cfgs, al: alphabet{resolve: true, abort: r.Pick(1, 2)},
